@@ -502,7 +502,7 @@ fn eval(a: &[String]) -> String {
     }
     "view_next_scan" => {
       // SixtyCycleDay::next / SixtyCycleHour::next against the stepped civil day / instant
-      let which = a(1);
+      let which = v[0];
       let mut t = SolarTime::from_ymd_hms(2021, 3, 4, 22, 59, 30);
       let mut out = "NONE".to_string();
       'scan: for _ in 0..200 {
